@@ -126,6 +126,42 @@ func (s *c08Server) get(key string) (val string, ok bool) {
 	return
 }
 
+// ---- connection-pool hygiene across outages ----
+//
+// go-redis v8 keeps idle connections in a process-wide pool (the wrapper's
+// clientManager, MinIdleConns 8) and learns that a pooled connection died only
+// by using it; after a server restart an arbitrary, schedule-dependent number of
+// dead connections lingers and makes later commands fail although Redis answers.
+// That is the environment's nondeterminism, not the limiter's. The harness makes
+// it deterministic with the pool's own idle rule (a connection unused for 5
+// minutes of time.Now is dropped silently when popped): the bubble clock - which
+// the limiters only use for housekeeping (monitor ticker, breaker window, retry
+// back-off; the bucket arithmetic uses the caller-supplied `now`, which is data
+// of the case) - is moved 5 minutes past the last use of any pooled connection
+// after every recovery and, once any case had an outage, at the start of every
+// later bubble (bubbles restart at 2000-01-01, so "last use" is tracked across
+// bubbles in c08Horizon).
+
+const c08IdleSkip = 5*time.Minute + time.Second
+
+var (
+	c08Epoch   = time.Unix(946684800, 0) // every bubble starts here
+	c08Dirty   bool                      // some earlier case closed the server
+	c08Horizon time.Duration             // latest virtual instant (since c08Epoch) reached by any bubble
+)
+
+func c08EnterBubble() {
+	if c08Dirty {
+		time.Sleep(c08Horizon + c08IdleSkip)
+	}
+}
+
+func c08LeaveBubble() {
+	if d := time.Since(c08Epoch); d > c08Horizon {
+		c08Horizon = d
+	}
+}
+
 func c08Classes(m map[string]bool) []string {
 	out := make([]string, 0, len(m))
 	for k := range m {
